@@ -285,6 +285,69 @@ def prop_assign(case):
     return {"nt": n_valid >= 1 and n_invalid >= 1 and dt not in ("Z", "A"), "slot": slot, "vlevel": vlevel, "new_tag": bool(case.get("new_tag")), "inplace": inplace}
 
 
+WRONG_TYPE = [
+    # (line, version, field, values of a Python type the field's datatype has no reading for)
+    ("C\ta\t+\tb\t+\t3\t*", "gfa1", "pos", [1.5, [1], {}, None]),
+    ("P\tp\ta+,b+\t*", "gfa1", "segment_names", [[], {}, 5]),
+    ("P\tp\ta+,b+\t*", "gfa1", "overlaps", [5, {}, 1.5]),
+    ("L\ta\t+\tb\t+\t*", "gfa1", "overlap", [5, 1.5, {}]),
+    ("L\ta\t+\tb\t+\t*", "gfa1", "from_orient", [5, [1]]),
+    ("S\ta\t*", "gfa1", "sequence", [5, [1], {}, None]),
+    ("E\te\ta+\tb+\t0\t1\t0\t1\t*", "gfa2", "alignment", [5, 1.5, {}]),
+    ("E\te\ta+\tb+\t0\t1\t0\t1\t*", "gfa2", "beg1", [1.5, [1], {}]),
+    ("E\te\ta+\tb+\t0\t1\t0\t1\t*", "gfa2", "sid1", [5, [1]]),
+    ("S\ta\t10\t*", "gfa2", "slen", [1.5, [1]]),
+    ("S\ta\t10\t*", "gfa2", "sequence", [5, [1]]),
+    ("S\ta\t10\t*", "gfa2", "sid", [5, [1]]),
+    ("G\tg\ta+\tb-\t5\t*", "gfa2", "disp", [1.5, [1]]),
+    ("G\tg\ta+\tb-\t5\t*", "gfa2", "var", [1.5, [1]]),
+    ("O\to\ta+ b+", "gfa2", "items", [[], 5, {}]),
+    ("U\tu\ta b", "gfa2", "items", [[], 5]),
+    ("F\ts\tr+\t0\t1\t0\t1\t*", "gfa2", "external", [5, [1], None]),
+    ("F\ts\tr+\t0\t1\t0\t1\t*", "gfa2", "s_beg", [1.5, {}]),
+]
+
+
+def prop_wrong_type(case):
+    """A value of a Python type the datatype of a positional field has no reading for (a float for a position, an
+    empty list or a dict for a list of references, a number for an alignment ...) is an invalid value like any
+    other: reported at the assignment at level 3, by validate_field() and validate() at every level, and no
+    later than the write at level 2.  (Any exception counts as a report, design rule 4.4.)"""
+    text, version, fn, v, vlevel = case["line"], case["version"], case["field"], case["value"], case["vlevel"]
+    line = gfapy.Line(text, version=version, vlevel=vlevel)
+    ctx = "%r at vlevel %d: %s = %r" % (text, vlevel, fn, v)
+    try:
+        if case.get("via") == "attr":
+            setattr(line, fn, v)
+        else:
+            line.set(fn, v)
+        raised = None
+    except Exception as e:
+        raised = e
+    if raised is None:
+        if vlevel >= 3:
+            raise Violation("invalid-not-reported-at-set", "%s: assignment at vlevel 3 raised nothing" % ctx, fn + "/" + type(v).__name__)
+        for what, call in (("validate_field", lambda: line.validate_field(fn)), ("validate", lambda: line.validate())):
+            try:
+                call()
+            except Exception:
+                continue
+            raise Violation("invalid-passes-" + what, "%s: %s() raises nothing" % (ctx, what), fn + "/" + type(v).__name__)
+        if vlevel >= 2 and not reported_at_write(line, fn):
+            raise Violation("invalid-written", "%s: written without report at vlevel %d: %r" % (ctx, vlevel, str(line)), fn + "/" + type(v).__name__)
+    return {"nt": True, "field": fn, "type": type(v).__name__, "at_set": raised is not None}
+
+
+def enum_wrong_type(shard, nshards):
+    i = 0
+    for text, version, fn, vals in WRONG_TYPE:
+        for v in vals:
+            for vlevel in (0, 1, 2, 3):
+                i += 1
+                if i % nshards == shard:
+                    yield {"line": text, "version": version, "field": fn, "value": v, "vlevel": vlevel, "via": "attr" if i % 3 == 0 else "set"}
+
+
 def edits(r, v, alpha):
     k = r.randrange(3)
     if k == 0 and v:
@@ -516,5 +579,7 @@ def parts(tier):
     q = tier == "quick"
     return [Part("levels", prop_levels, strategy=st_levels(), n=300 if q else 2000, quick_shards=4),
             Part("assign", prop_assign, strategy=st_assign(), n=2500 if q else 15000, quick_shards=4),
+            Part("wrong-type", prop_wrong_type, enum=enum_wrong_type, exhaustive=True,
+                 note="positional fields given values of a Python type their datatype cannot hold, every level"),
             Part("typed", prop_typed, strategy=st_typed(), n=600 if q else 4000, quick_shards=2),
             Part("header-add", prop_header_add, strategy=st_header_add(), n=500 if q else 3000, quick_shards=2)]
